@@ -149,17 +149,50 @@ def evaluate(case, acc, seed_for_forms):
     return results
 
 
+def reuse_sequence(case, acc, seed_for_forms):
+    """ONE DiagramRule object applied to several architectures over the same components: the case's own
+    (possibly violating) graph, a graph that conforms exactly, and the first one again.  Every call is judged
+    by the monitor against the graph it was given; state carried over on the rule object shows up as a wrong
+    verdict or as messages of an earlier evaluation."""
+    from pytestarch import DiagramRule
+
+    rnd = random.Random(seed_for_forms)
+    BASE = case.get("base", "r.app")
+    rel = [tuple(r) for r in case["rel"]]
+    conforming = sorted((f"{BASE}.{a}", f"{BASE}.{b}") for a, b in rel)
+    graphs = [[tuple(i) for i in case["imps"]], conforming, [tuple(i) for i in case["imps"]]]
+    if rnd.random() < 0.5:
+        graphs.reverse()
+    path = write_diagram(diagram_spec(rnd, case["comps"], rel), f"r{acc.evaluations}.puml")
+    mode = rnd.random() < 0.5
+    rule = DiagramRule(should_only_rule=mode).from_file(Path(path)).with_base_module(BASE)
+    outcomes = []
+    for k, imps in enumerate(graphs):
+        ev = build(case["mods"], imps)
+        HUB.case = dict(case, kind="diagram-reuse", forms_seed=seed_for_forms, step=k)
+        outcomes.append(run(rule, ev)[0])
+        acc.evaluated()
+    acc.count("reused_rule_sequences")
+    if len(set(outcomes)) > 1:
+        acc.count("reused_rule_sequences_with_changing_verdict")
+    os.unlink(path)
+
+
 def run_shard(spec, acc):
     rnd = random.Random(spec["seed"])
     for i in range(spec["n"]):
         case = gen_case(rnd)
         evaluate(case, acc, rnd.randint(0, 10**6))
+        if i % 3 == 0:
+            reuse_sequence(case, acc, rnd.randint(0, 10**6))
         acc.hist("perturbations", len(case["pert"]))
         if i % 67 == 0:
             acc.sample({"components": case["comps"], "drawn": case["rel"], "imports": case["imps"], "perturbations": case["pert"]})
 
 
 def replay(case, acc):
+    if case.get("kind") == "diagram-reuse":
+        return reuse_sequence(case, acc, case.get("forms_seed", 0))
     evaluate(case, acc, case.get("forms_seed", 0))
 
 
@@ -176,6 +209,8 @@ def floors(acc, tier):
                     why.append(f"never observed {mode}:{naming}:{o}")
     if acc.counters["base_module_named_like_a_component"] < 50:
         why.append("too few cases with a component named like the base module")
+    if acc.counters["reused_rule_sequences_with_changing_verdict"] < 20:
+        why.append(f"only {acc.counters['reused_rule_sequences_with_changing_verdict']} re-used rule objects saw both a conforming and a violating architecture")
     if acc.counters["c07_judged"] < 1000:
         why.append(f"only {acc.counters['c07_judged']} diagram evaluations judged")
     return why
